@@ -441,6 +441,40 @@ def extra_obligations(w, tier, seed):
     out.append(dict(id='scan/is_global_object', kind='ownership', tag='auxiliary', paths=1, status='discharged' if ok else 'unknown', backend='ast-scan', seconds=0.0,
                     clause='edb/schema: is_global_object is a class attribute set to False in Object and True in GlobalObject and assigned nowhere else (so obj.is_global_object == isinstance(obj, GlobalObject))',
                     model=None if ok else {'offending_source_location': assigns}, where='%s' % (assigns,), function='ast-scan'))
+    # "earlier versions stay frozen" also covers what is derived from names and memoised: edb/schema/name.py caches (functools.lru_cache) functions that return a LIST;
+    # the cached list object is shared by every caller and by every schema version, so no caller may change it in place (it must copy first)
+    nm = repo.module('edb/schema/name.py')
+    cached = [f.name for f in nm.tree.body if isinstance(f, ast.FunctionDef) and any('lru_cache' in ast.unparse(d) for d in f.decorator_list)
+              and f.returns is not None and ast.unparse(f.returns).split('[')[0] in ('List', 'list', 'Dict', 'dict', 'Set', 'set', 'typing.List')]
+    MUT = ('append', 'extend', 'insert', 'pop', 'remove', 'sort', 'reverse', 'clear', 'update', 'add', 'discard', 'setdefault')
+    bad = []; calls = 0
+    for dirpath, dirs, files in os.walk(os.path.join(repo.REPO, 'edb')):
+        for f_ in files:
+            if not f_.endswith('.py'): continue
+            try: tree = ast.parse(open(os.path.join(dirpath, f_), encoding='utf-8').read())
+            except SyntaxError: continue
+            rel = os.path.relpath(os.path.join(dirpath, f_), repo.REPO)
+            for fn in [n for n in ast.walk(tree) if isinstance(n, (ast.FunctionDef, ast.AsyncFunctionDef))]:
+                bound = {}
+                for n in ast.walk(fn):
+                    if isinstance(n, ast.Call) and ast.unparse(n.func).split('.')[-1] in cached: calls += 1
+                    if isinstance(n, ast.Assign) and len(n.targets) == 1 and isinstance(n.targets[0], ast.Name) and isinstance(n.value, ast.Call) \
+                            and ast.unparse(n.value.func).split('.')[-1] in cached:
+                        bound[n.targets[0].id] = n.lineno
+                if not bound: continue
+                for n in ast.walk(fn):
+                    tgt = None
+                    if isinstance(n, (ast.Assign, ast.AugAssign, ast.Delete)):
+                        for t in (n.targets if isinstance(n, (ast.Assign, ast.Delete)) else [n.target]):
+                            if isinstance(t, ast.Subscript) and isinstance(t.value, ast.Name): tgt = t.value.id
+                            if isinstance(n, ast.AugAssign) and isinstance(t, ast.Name): tgt = t.id
+                    if isinstance(n, ast.Call) and isinstance(n.func, ast.Attribute) and n.func.attr in MUT and isinstance(n.func.value, ast.Name): tgt = n.func.value.id
+                    if tgt in bound and n.lineno >= bound[tgt]:
+                        bad.append('%s:%d (%s): `%s` holds the memoised result of a cached name function (bound at line %d) and is changed in place' % (rel, n.lineno, fn.name, tgt, bound[tgt]))
+    ok = bool(cached) and calls >= 1 and not bad
+    out.append(dict(id='scan/cached-name-lists-not-mutated', kind='ownership', tag='property', paths=1, status='discharged' if ok else ('failed' if bad else 'unknown'), backend='ast-scan', seconds=0.0,
+                    clause='edb/: the list returned by a memoised function of edb/schema/name.py (%s) is never changed in place by a caller' % ', '.join(cached),
+                    model=None if ok else {'offending_source_location': bad}, where='; '.join(bad[:3]) or '%d call sites of %s' % (calls, cached), function='ast-scan'))
     return out
 
 def scenarios(tier, seed, repo_root, outdir):
